@@ -129,6 +129,7 @@ THEOREMS = [
     "XalanModel.Props.C20.plist_constructNode_alloc_refines",
     "XalanModel.Props.C20.plist_constructNode_first_refines",
     "XalanModel.Props.C20.plist_history",
+    "XalanModel.Props.C20.plist_splice_same_refines",
     "XalanModel.Props.C20.set_step_refines",
     "XalanModel.Props.C20.objcache_get_refines",
     "XalanModel.Props.C20.objcache_release_put_refines",
